@@ -382,7 +382,7 @@ impl Check for C05 {
         ]
     }
     fn units(&self, tier: Tier) -> Vec<Unit> {
-        vec![Unit::gen("streams", 16, tier.pick(14, 300)), Unit::enumerate("growth", 9)]
+        vec![Unit::gen("streams", 16, tier.pick(40, 300)), Unit::enumerate("growth", 9)]
     }
     fn required_classes(&self, _tier: Tier) -> Vec<&'static str> {
         vec!["memory_bound_checked", "detected", "explicit", "packet:one_document_per_read", "packet:several_documents_per_read", "packet:fraction_of_a_document", "pair:json->yaml", "pair:yaml->json", "pair:msgpack->msgpack", "pair:yaml->yaml", "doc:small", "doc:large", "growth_checked"]
